@@ -78,6 +78,7 @@ func main() {
 	allCuts := fl.Bool("allcuts", false, "cut mode: every byte offset of small tapes instead of the boundary neighbourhood")
 	mode := fl.String("mode", "plain", "history shape: plain | ro (populate, reopen read-only, mixed calls) | reopen (reopen/rebuild in the middle)")
 	work := fl.String("work", "", "scratch directory (default: a fresh temp dir, removed afterwards)")
+	clients := fl.Int("clients", 3, "conc: at most this many concurrent clients")
 	knownPath := fl.String("known", "/verif/known-findings.jsonl", "known findings file (read only)")
 	fl.Parse(os.Args[2:])
 
@@ -121,6 +122,18 @@ func main() {
 				}
 				res.OracleChecks["C03 codec matrix"] = 8 * 3 * 2 * 6
 			}
+		}
+	case "conc":
+		o := fsOpts{seed: *seed, n: *n, workers: *workers, driver: *driver, rs: ints(*rss), scratch: scratch, known: loadKnown(*knownPath),
+			from: *from, to: *to, clients: *clients}
+		o.watchdog = time.Duration(*wd) * time.Second
+		if *child {
+			if o.to < 0 {
+				o.to = o.n
+			}
+			res = runConc(o)
+		} else {
+			res = runConcParent(o, os.Args[2:])
 		}
 	case "forge", "leak":
 		o := fsOpts{seed: *seed, n: *n, length: *length, workers: *workers, driver: *driver, rs: ints(*rss), scratch: scratch, known: loadKnown(*knownPath),
@@ -193,6 +206,7 @@ func ints(s string) []int {
 }
 
 type fsOpts struct {
+	clients      int
 	seed         int64
 	n            int
 	length       int
